@@ -18,10 +18,18 @@ MAX_VARS = 20
 
 
 # ---------------------------------------------------------------------------------------------------------
+def avoid_set():
+    """development knob (never set by the registered commands): VERIF_LMM_AVOID=zero_cap,fb_fatpipe,cb_ignored,
+    bmf_bound_penalty,bmf_bound,bmf_fatpipe,zero_weight keeps the generator away from the triggers of defects already found, so that a campaign (or a
+    mutant run) can look for *other* ones. The plan records it."""
+    return sorted(x for x in os.environ.get('VERIF_LMM_AVOID', '').split(',') if x)
+
+
 def gen_history(seed, tier, solvers, selective=None, dump_every=False, fresh=False, limits_bias=0.5,
                 allow_zero_cap=True):
     """A plan: header + list of ops. Ops are lists: ['C',cid,bound,pol,cb,limit] ['V',vid,pen,bound,ncap]
     ['E',vid,cid,w] ['B',vid,b] ['P',vid,p] ['K',cid,b] ['F',vid] ['S']."""
+    avoid = avoid_set()
     k = Rng(seed, 'knobs')
     g = Rng(seed, 'history')
     solver = k.choice(solvers)
@@ -51,6 +59,20 @@ def gen_history(seed, tier, solvers, selective=None, dump_every=False, fresh=Fal
     visited_start = None
     if sel and k.chance(0.3):
         visited_start = (1 << 32) - k.randint(1, 8)
+    if 'zero_cap' in avoid:
+        zero_cap = False
+    if 'fb_fatpipe' in avoid and solver == 'fairbottleneck' and 'F' in pol_pool:
+        pol_pool.remove('F')
+    no_cb = 'cb_ignored' in avoid and solver == 'fairbottleneck'
+    no_wifi_cb = 'cb_ignored' in avoid and solver == 'bmf'
+    if 'bmf_bound_penalty' in avoid and solver == 'bmf':
+        pens = [1]
+    if 'bmf_bound' in avoid and solver == 'bmf':
+        use_bounds = False
+    if 'bmf_fatpipe' in avoid and solver == 'bmf' and 'F' in pol_pool:
+        pol_pool.remove('F')
+    if 'zero_weight' in avoid:
+        use_zero_weight = False
 
     ops = []
     mods = 0
@@ -68,6 +90,8 @@ def gen_history(seed, tier, solvers, selective=None, dump_every=False, fresh=Fal
         cb = 0
         if pol in ('N', 'W'):
             cb = g.wchoice([(0, 2), (1, 2), (2, 3), (3, 2), (4, 1), (5, 1 if zero_cap else 0)])
+            if no_cb or (no_wifi_cb and pol == 'W'):
+                cb = 0
         limit = g.choice(limit_pool) if use_limits and g.chance(0.7) else -1
         b = cap()
         if zero_cap and g.chance(0.15):
@@ -155,7 +179,7 @@ def gen_history(seed, tier, solvers, selective=None, dump_every=False, fresh=Fal
     if ops[-1] != ['S']:
         ops.append(['S'])
     return dict(seed=seed, solver=solver, selective=1 if sel else 0, dump_every=1 if dump_every else 0, monitor=1,
-                fresh=1 if fresh else 0, visited_start=visited_start, ops=ops)
+                fresh=1 if fresh else 0, visited_start=visited_start, avoid=avoid, ops=ops)
 
 
 def render(plan):
@@ -235,7 +259,9 @@ def run_history(plan, timeout=25):
     outcome = 'ok'
     if to:
         outcome = 'wall-timeout'         # infrastructure: the harness kills itself after 2 s of CPU time
-    elif rc == -24:
+    elif rc == 127 or 'error while loading shared libraries' in errt or 'symbol lookup error' in errt:
+        raise dst.Infra('lmmsim could not start (library being rebuilt?): %s' % errt[-300:])
+    elif rc == -24 and 'CPULIMIT' in text:
         outcome = 'timeout'              # SIGXCPU: the solver did not return
     elif rc != 0:
         if p['abort'] and p['abort'][1] == 'S' and plan['solver'] == 'bmf' and BMF_GIVEUP in errt:
@@ -361,7 +387,9 @@ def features(plan):
         nonlinear=any(o[0] == 'C' and o[3] in 'NW' and o[4] > 0 for o in ops),
         wifi=any(o[0] == 'C' and o[3] == 'W' for o in ops),
         limits=any(o[0] == 'C' and o[5] >= 0 for o in ops),
-        suspend=any(o[0] == 'P' and o[2] == 0 for o in ops))
+        suspend=any(o[0] == 'P' and o[2] == 0 for o in ops),
+        var_bound=any((o[0] == 'V' and o[3] > 0) or (o[0] == 'B' and o[2] > 0) for o in ops),
+        zero_weight=any(o[0] == 'E' and o[3] == 0 for o in ops))
 
 
 MON_KNOWN = {'C15': {'cap', 'val-nan', 'val-disabled', 'val-negative', 'val-bound'}, 'C16': {'mm-unfair'},
@@ -371,6 +399,21 @@ MON_KNOWN = {'C15': {'cap', 'val-nan', 'val-disabled', 'val-negative', 'val-boun
 
 def mon_family(cls):
     return 'cap' if cls.startswith('cap-') else cls
+
+
+SOLVER_TAG = {'maxmin': 'mm', 'fairbottleneck': 'fb', 'bmf': 'bmf'}
+SYSTEM_LEVEL = ('conc-', 'staged-', 'suspended-', 'penalty-', 'fresh-')
+
+
+def qualify(cls, st, tag):
+    """violation classes of solver-level rules carry the solver (three different implementations) and whether a
+    zero-capacity resource is in use in that state (a known weak spot), so that one known finding cannot hide another"""
+    if cls.startswith(SYSTEM_LEVEL):
+        return cls
+    zero = any(R.capacity_of(c) <= 0 and c['nen'] > 0 for c in st['cn'].values())
+    if zero and 'zerocap' not in cls:
+        cls += '-zerocap'
+    return cls + '-' + tag
 
 
 class LmmCheck(dst.Check):
@@ -384,7 +427,8 @@ class LmmCheck(dst.Check):
     my_monitor_prop = None   # 'C15'...: LMMVIOL lines of that property are violations of this check
     crash_is_violation = True
     hang_is_violation = True
-    shrink_budget = 500
+    shrink_budget = 300
+    max_reported = 6
     real_vs_stub = {
         'lmm::System (constraints, variables, elements, concurrency staging, selective update)': 'real',
         'lmm::MaxMin / FairBottleneck / BmfSystem solvers': 'real',
@@ -404,7 +448,7 @@ class LmmCheck(dst.Check):
         'selective solves, not read',
         'BMF "Unable to find a BMF allocation" abort is an allowed outcome (counted); any other abort/crash is not',
     ]
-    budgets = {'quick': dict(runs=6000, wall=45), 'thorough': dict(runs=150000, wall=600)}
+    budgets = {'quick': dict(runs=5000, wall=40), 'thorough': dict(runs=150000, wall=600)}
 
     def gen(self, seed, tier):
         return gen_history(seed, tier, self.solvers, self.selective, self.dump_every, self.fresh, self.limits_bias)
@@ -421,16 +465,17 @@ class LmmCheck(dst.Check):
 
     def oracle(self, plan, res):
         out = []
+        tag = SOLVER_TAG[plan['solver']]
         if res['outcome'] == 'crash' and self.crash_is_violation:
             a = res['abort']
             msg = res['stderr'].strip().split('\n')
             # keep the first informative line of the message
             info = [m for m in msg if 'rror' in m or 'ssert' in m or 'bug' in m or 'imit' in m or 'mpossible' in m][:2]
-            out.append(('crash', 'lmmsim rc=%s during op %s (%s): %s' %
+            out.append(('crash-' + tag, 'lmmsim rc=%s during op %s (%s): %s' %
                         (res['rc'], a[0] if a else '?', a[1] if a else '?', ' | '.join(info) or ' | '.join(msg[-2:]))))
         if res['outcome'] == 'timeout' and self.hang_is_violation:
-            out.append(('hang', '%s solver did not return (killed after 2 s of CPU time; a history normally takes '
-                        'milliseconds); last op started: %s' % (plan['solver'], res['ops'][-1] if res['ops'] else '?')))
+            out.append(('hang-' + tag, '%s solver did not return (killed after 3 s of CPU time; a history normally takes '
+                        'milliseconds); last op completed: %s' % (plan['solver'], res['ops'][-1] if res['ops'] else '?')))
         reqs = requested_penalties(plan, res)
         seen = set()
         py_solve = set()
@@ -438,6 +483,7 @@ class LmmCheck(dst.Check):
             for cls, msg in self.check_state(plan, res, st, reqs.get(st['idx'], {})):
                 if st['kind'] == 'solve':
                     py_solve.add(mon_family(cls))
+                cls = qualify(cls, st, tag)
                 if cls not in seen:           # first occurrence per class is enough
                     seen.add(cls)
                     out.append((cls, 'after op %d: %s' % (st['idx'], msg)))
@@ -494,14 +540,21 @@ class LmmCheck(dst.Check):
                     final_values={str(v): x['value'] for st in res['states'][-1:] for v, x in st['vr'].items()})
 
     def known_matchers(self):
-        return {
-            'zero_capacity': lambda plan, cls, msg: features(plan)['zero_cap'],
-            'fatpipe': lambda plan, cls, msg: features(plan)['fatpipe'],
-            'fatpipe_fairbottleneck': lambda plan, cls, msg: features(plan)['fatpipe'] and
-            plan['solver'] == 'fairbottleneck',
-            'fatpipe_bmf': lambda plan, cls, msg: features(plan)['fatpipe'] and plan['solver'] == 'bmf',
-            'callback_ignored_by_solver': lambda plan, cls, msg: features(plan)['nonlinear'] and
-            plan['solver'] in ('fairbottleneck', 'bmf'),
-            'suspend_while_staged': lambda plan, cls, msg: features(plan)['suspend'] and features(plan)['limits'],
-            'solver_is': lambda plan, cls, msg: True,
+        """predicates over the MINIMISED plan, for known_findings.json entries (see the engine-B report)"""
+        def f(name):
+            return lambda plan, cls, msg: bool(features(plan)[name])
+
+        def solver(*names):
+            return lambda plan, cls, msg: plan['solver'] in names
+        m = {
+            'zero_capacity': f('zero_cap'),
+            'fairbottleneck_fatpipe': lambda p, c, msg: features(p)['fatpipe'] and p['solver'] == 'fairbottleneck',
+            'bmf_fatpipe': lambda p, c, msg: features(p)['fatpipe'] and p['solver'] == 'bmf',
+            'callback_ignored_by_solver': lambda p, c, msg: features(p)['nonlinear'] and
+            p['solver'] in ('fairbottleneck', 'bmf'),
+            'bmf_variable_bound': lambda p, c, msg: p['solver'] == 'bmf' and features(p)['var_bound'],
+            'zero_weight_expand': f('zero_weight'),
+            'suspend_with_concurrency_limit': lambda p, c, msg: features(p)['suspend'] and features(p)['limits'],
+            'selective_update': lambda p, c, msg: p['selective'] == 1,
         }
+        return m
